@@ -4,7 +4,8 @@ import t2t, corr, semrun, gen, impl
 OBLIGATIONS = ['Yalafi.C12_sections_conserve', 'Yalafi.C12_sections_wf', 'Yalafi.C12_stack', 'Yalafi.C12_parts', 'Yalafi.C12_langs_nodup',
                'Yalafi.C12_total', 'Yalafi.C12_removeLines_lang',
                'Yalafi.Generated.initParser_babel', 'Yalafi.PlainLang.C12_selectlanguage_e2e', 'Yalafi.PlainLang.C12_word_one_part', 'Yalafi.PlainLang.C12_part_language', 'Yalafi.PlainLang.C12_textChars_source', 'Yalafi.PlainLang.C12_selectlanguage_e2e_current',
-               'Yalafi.PlainForeign.C12_foreignlanguage_e2e', 'Yalafi.PlainForeign.C12_short_insertion_one_placeholder', 'Yalafi.PlainForeign.C12_foreign_words_own_part', 'Yalafi.PlainForeign.C12_main_words_main_part', 'Yalafi.PlainForeign.C12_foreignlanguage_e2e_current']
+               'Yalafi.PlainForeign.C12_foreignlanguage_e2e', 'Yalafi.PlainForeign.C12_short_insertion_one_placeholder', 'Yalafi.PlainForeign.C12_foreign_words_own_part', 'Yalafi.PlainForeign.C12_main_words_main_part', 'Yalafi.PlainForeign.C12_foreignlanguage_e2e_current',
+               'Yalafi.PlainLangMix.C12_mixed_languages_e2e', 'Yalafi.PlainLangMix.C12_mix_word_language', 'Yalafi.PlainLangMix.C12_mix_word_once', 'Yalafi.PlainLangMix.C12_mix_nesting', 'Yalafi.PlainLangMix.C12_mix_textChars_source', 'Yalafi.PlainLangMix.C12_mixed_languages_e2e_current']
 
 ONLY = {'c_group', 'c_unknown', 'c_vanish', 'c_foreign', 'c_otherlanguage', 'c_selectlanguage', 'c_footnote', 'c_ref'}
 
